@@ -179,7 +179,24 @@ def w_C02_peroxide():
     return bad, "rebalance([%r]) -> solved=%s by %s: %r -- the given product molecule OO is no longer on the product side" % (rx, r["solved"], r.get("solved_by"), r["reaction"])
 
 
+def w_C12_nested():
+    import shutil
+
+    d = _tmpdir()
+    try:
+        rx = ["CCO>>CCO"]
+        _balancer(cache=True, cache_dir=os.path.join(d, "strict")).rebalance(rx, output_dict=True)
+        try:
+            out = _balancer(cache=True, cache_dir=d).rebalance(rx, output_dict=True)
+            return False, "outer run returned %d rows" % len(out)
+        except Exception as e:
+            return True, "a run with cache_dir=<d>/strict, then the same batch with cache_dir=<d>: the second run raises %s out of Balancer.rebalance" % type(e).__name__
+    finally:
+        shutil.rmtree(d, ignore_errors=True)
+
+
 WITNESSES = {
+    "C12-nested-cache-directory-raises": ("C12", w_C12_nested),
     "C14-substring-marker-order-sensitive": ("C14", w_C14_marker),
     "C14-given-marker-molecule-position-sensitive": ("C14", w_C14_given_peroxide),
     "C02-given-peroxide-rewritten": ("C02", w_C02_peroxide),
